@@ -90,7 +90,7 @@ def run_tlc(spec_dir, module, cfg, env=None, workers=8, timeout=900, heap="6g", 
         # (e.g. a logged {"panic":1} against an expected sequence): the two are certainly different.
         # Only accepted when the failing expression is the trace module's own comparison.
         fr = re.search(r"0\. Line \d+, column \d+ to line \d+, column \d+ in (Trace_\w+)", out)
-        ls = re.findall(r"^/\\ l = (\d+)", out, re.M)
+        ls = re.findall(r"^/\\ (?:l|n) = (\d+)$", out, re.M)
         if fr and ls:
             r["shape_mismatch_at"] = int(ls[-1]) + 1
     if not r["ok"] and not r["invariant_violated"] and not r["postcondition_false"] and not r["shape_mismatch_at"]:
